@@ -345,7 +345,7 @@ if "C10" in which:
     ])
 
 if "C07" in which:
-    put("C07", "Codec.Varint Codec.NV Codec.Vars Parser.ReqWire Parser.ReqTargets Async.ConnTotal Async.ConnReads Async.LoopTargets Async.LoopProofs Async.PeerTargets4 Async.PeerProofs4 Async.LogTargets Async.LogProofs Parser.AbsStream Parser.StreamSpec Parser.StreamFinal Parser.EnvCanon Async.ReadsWTargets Async.PeerTargets Async.PeerTargets2 Async.PeerTargets3 Async.BodyTargets Async.BodyReadsTargets Async.BodyReadsProofs", [
+    put("C07", "Codec.Varint Codec.NV Codec.Vars Parser.ReqWire Parser.ReqTargets Async.ConnTotal Async.ConnReads Async.LoopTargets Async.LoopProofs Async.PeerTargets4 Async.PeerProofs4 Async.LogTargets Async.LogProofs Parser.AbsStream Parser.StreamSpec Parser.StreamFinal Parser.EnvCanon Async.ReadsWTargets Async.PeerTargets Async.PeerTargets2 Async.PeerTargets3 Async.BodyTargets Async.BodyReadsTargets Async.BodyReadsProofs Async.FrameTargets Async.EpilogueTargets Async.EpilogueProofs", [
         ("'exactly that request': Token::parse_request IS a read schedule of the request parser whose chunks are the transport reads — "
          "whatever the transport does (any read sizes, Pending, any write pattern)", "parse_request_sched", "C07_parse_request_is_a_schedule", ["parse_request_sched_stmt"]),
         ("a reused connection's parser (leftover L of the previous request in its buffer) behaves exactly like a fresh parser fed L first", "leftover_as_fed", "C07_leftover_as_fed", ["leftover_as_fed_stmt"]),
@@ -377,6 +377,15 @@ if "C07" in which:
          "and the content still to come of every input stream equal what the single invocation of a FRESH connection carrying only request i "
          "is started with and can read, whatever the transports, scripts and readiness patterns of the two connections", "reuse_is_invisible",
          "C07_reuse_is_invisible", ["reuse_is_invisible_stmt"]),
+        ("the central clause read off the DECODED transport log: on a transport without write faults, never shut down, for every client, buffer "
+         "size, fuel and handler scripts that await their reads and write to Stdout / Stderr, every handler invocation whose close completed "
+         "owns a stretch of the log that decodes completely into records (the log at handler start, what the handler phase appended, what close "
+         "appended: each whole), in which EXACTLY ONE record is an EndRequest with the request's id - the LAST one, carrying the invocation's "
+         "status (the handler's own, or ABORT for the client's abort), directly preceded (when the request had become writeable) by the empty "
+         "Stdout and Stderr records of that id; everything before it is handler output and management replies", "epilogue_records",
+         "C07_epilogue_records", ["epilogue_records_stmt", "answered_once"]),
+        ("non-vacuity: the run of Async/PeerProofs2.ex2 - one closed invocation whose handler phase decodes into a GetValuesResult and a Stdout "
+         "record and whose close decodes into empty Stdout, empty Stderr, EndRequest", "epilogue_records_ex", "C07_epilogue_records_example"),
     ], tail='''(* non-vacuity of C07_handler_sees_exactly_the_request: a concrete connection (B = 160, a GetValues junk record inside
    the preamble, leftover = 5 bytes, two client segments, Pending reads and writes) satisfies every hypothesis *)
 Example C07_handler_sees_example : forall s0 w', lp_run = Ok (inl s0) w' ->
